@@ -122,6 +122,10 @@ def run(res):
                     "distinct_nontrivial counts distinct (transport, pattern, raw, direction) combinations reached",
             "samples": samples,
         })
+    # framing must not depend on how the byte stream is cut: conn / connipc over a connection that returns the
+    # peer's bytes in arbitrary pieces, and the bytes Send writes
+    from .. import stream
+    res.coverage["chunked_stream_scenarios"] = stream.run(res, "C01")
     for n, e in failed:
         res.violation("obligation:" + n, "generated obligation %s no longer checks against the pool table / limit re-extracted from /repo" % n,
                       {"theorem": n, "coqc": e, "translator": "harness/cmd/consts"}, found_input=(found > 0))
